@@ -200,6 +200,12 @@ TRange ==
   /\ kv' = newkv
   /\ flags' = (IF e.res.tag # "list" \/ ItemsOf(e) # expect THEN {"range"} ELSE {})
               \cup (IF newkv # kv THEN {"other"} ELSE {})
+              \* C11: a key that carries an expiry is shown by the scan although it has expired, or hidden
+              \* although it has not
+              \cup (IF e.res.tag = "list" /\ \E i \in 1 .. N :
+                        /\ kv[i].p /\ kv[i].exp # UZero
+                        /\ (\E j \in 1 .. Len(e.items) : e.items[j].k = i) # (\E j \in 1 .. Len(expect) : expect[j].k = i)
+                  THEN {"c11"} ELSE {})
   /\ UNCHANGED <<now, floor, seen, cfg, klen, pin>>
 
 (* flush changes nothing logically; a sweep may remove only expired generations *)
